@@ -178,6 +178,10 @@ fn planner_oracle(u: &Universe, cur_seq: &[usize], stripped: &ChunkIndex, ops: &
 }
 
 fn planner_case(u: &Universe, cur_seq: &[usize], tgt_seq: &[usize], hl: usize, out: &mut SuiteOut, st: &mut Stats) {
+    planner_case2(u, cur_seq, tgt_seq, hl, out, None, st)
+}
+
+fn planner_case2(u: &Universe, cur_seq: &[usize], tgt_seq: &[usize], hl: usize, out: &mut SuiteOut, iter_out: Option<&mut SuiteOut>, st: &mut Stats) {
     let cur = idx_of_seq(u, cur_seq);
     let tgt = idx_of_seq(u, tgt_seq);
     let line = format!("planner {} {}", idx_str(&cur), idx_str(&tgt));
@@ -203,6 +207,7 @@ fn planner_case(u: &Universe, cur_seq: &[usize], tgt_seq: &[usize], hl: usize, o
             st.count(&format!("planner/ops/{}", match nops { 0 => "0", 1 => "1", 2..=4 => "2-4", _ => "5+" }));
             st.sample(line.clone());
             out.push(&line, &s);
+            if let Some(io) = iter_out { io.push(&line.replacen("planner ", "planneriter ", 1), &s); }
         }
         Err(_) => {
             st.violation("C03", "planner panicked", &line);
@@ -222,6 +227,7 @@ fn small_universe(sizes: &[usize]) -> Universe {
 
 pub fn suite_planner(dir: &str, seed: u64, thorough: bool, st: &mut Stats) {
     let mut out = SuiteOut::new(dir, "planner");
+    let mut iter_out = SuiteOut::new(dir, "planner-iter");
     let mut rng = Rng::new(seed ^ 0x55);
     // exhaustive small scope: all pairs of tiled layouts of <= L chunks over 3 identities
     let l = if thorough { 5 } else { 4 };
@@ -264,7 +270,57 @@ pub fn suite_planner(dir: &str, seed: u64, thorough: bool, st: &mut Stats) {
         let a: Vec<usize> = (0..la).map(|_| rng.below(k as u64) as usize).collect();
         let b: Vec<usize> = (0..lb).map(|_| rng.below(k as u64) as usize).collect();
         let hl = *rng.pick(&[4usize, 8, 16, 64]);
-        planner_case(&u, &a, &b, hl, &mut out, st);
+        planner_case2(&u, &a, &b, hl, &mut out, Some(&mut iter_out), st);
+    }
+    out.finish();
+    iter_out.finish();
+}
+
+/// ChunkIndex keyed by (truncated) HashSum bytes: add/contains/remove with crafted hashes of various lengths
+pub fn suite_hashkey(dir: &str, seed: u64, thorough: bool, st: &mut Stats) {
+    let mut out = SuiteOut::new(dir, "hashkey");
+    let mut rng = Rng::new(seed ^ 0x56);
+    let n = if thorough { 5000 } else { 600 };
+    for _ in 0..n {
+        let l = *rng.pick(&[0usize, 1, 4, 8, 16, 64, 70]);
+        // a small pool of hashes with shared prefixes and different lengths (all >= l unless l is large)
+        let base: Vec<u8> = (0..72).map(|_| rng.next() as u8).collect();
+        let pool: Vec<Vec<u8>> = (0..6).map(|i| {
+            let len = *rng.pick(&[4usize, 8, 20, 64, 72]).max(&l.min(64));
+            let mut h = base[..len].to_vec();
+            if i % 2 == 1 { let p = rng.below(len as u64) as usize; h[p] ^= 1 << rng.below(8); }
+            h
+        }).collect();
+        let mut idx = ChunkIndex::new_empty(l);
+        let mut ops = vec![];
+        let mut res = String::new();
+        for _ in 0..rng.range(1, 10) {
+            let h = rng.pick(&pool).clone();
+            match rng.below(3) {
+                0 => {
+                    let size = rng.range(1, 50) as usize;
+                    let offs: Vec<u64> = (0..rng.range(1, 3)).map(|_| rng.below(100)).collect();
+                    idx.add_chunk(HashSum::from(&h[..]), size, &offs);
+                    ops.push(format!("a{}:{}:{}", hex(&h), size, offs.iter().map(|x| x.to_string()).collect::<Vec<_>>().join(",")));
+                }
+                1 => { res.push(if idx.contains(&HashSum::from(&h[..])) { '1' } else { '0' }); ops.push(format!("c{}", hex(&h))); }
+                _ => {
+                    match idx.remove(&HashSum::from(&h[..])) {
+                        Some(loc) => res.push_str(&format!("[{}:{}]", loc.size(), loc.offsets().iter().map(|x| x.to_string()).collect::<Vec<_>>().join(","))),
+                        None => res.push_str("[-]"),
+                    }
+                    ops.push(format!("r{}", hex(&h)));
+                }
+            }
+        }
+        let mut entries: Vec<String> = idx.iter_chunks().map(|(k, loc)| format!("{}:{}:{}", hex(k.slice()), loc.size(), loc.offsets().iter().map(|x| x.to_string()).collect::<Vec<_>>().join(","))).collect();
+        entries.sort();
+        let line = format!("hashkey {} {}", l, ops.join("/"));
+        st.evaluations += 1;
+        st.count(&format!("hashkey/L={}", l));
+        if ops.len() >= 3 { st.nontrivial_key(line.as_bytes()); }
+        st.sample(line.clone());
+        out.push(&line, &format!("OK {} | {}", res, if entries.is_empty() { "-".to_string() } else { entries.join(";") }));
     }
     out.finish();
 }
